@@ -4,6 +4,7 @@
   (no analysis needed): they are about caching, not about numbers.
 -/
 import QExPy.Lemmas.World
+import QExPy.Real
 set_option linter.unusedSectionVars false
 
 namespace QExPy
@@ -295,6 +296,7 @@ theorem C05_sim_kept (w : World α) (op : Op α) (n : Nat) (nd : Node α) (s : N
   cases op with
   | setValue i v => exact ⟨nd, by simpa [step] using hn, hs⟩
   | setError i e => exact ⟨nd, by simpa [step] using hn, hs⟩
+  | setRel i e => exact ⟨nd, by simpa [step] using hn, hs⟩
   | setCorr i j r => exact ⟨nd, by simpa [step] using hn, hs⟩
   | resetCorr => exact ⟨nd, by simpa [step] using hn, hs⟩
   | setGlobal m => exact ⟨nd, by simpa [step] using hn, hs⟩
@@ -336,6 +338,7 @@ theorem C05_memo_kept (w : World α) (op : Op α) (n : Nat) (nd : Node α) (r : 
   cases op with
   | setValue i v => exact ⟨nd, by simpa [step] using hn, hr⟩
   | setError i e => exact ⟨nd, by simpa [step] using hn, hr⟩
+  | setRel i e => exact ⟨nd, by simpa [step] using hn, hr⟩
   | setCorr i j r => exact ⟨nd, by simpa [step] using hn, hr⟩
   | resetCorr => exact ⟨nd, by simpa [step] using hn, hr⟩
   | setGlobal m => exact ⟨nd, by simpa [step] using hn, hr⟩
@@ -369,6 +372,27 @@ theorem C05_memo_kept (w : World α) (op : Op α) (n : Nat) (nd : Node α) (r : 
       | some s => exact ⟨{ nd with size := k, sim := none }, by simp, hr⟩
       | none => exact ⟨{ nd with size := k, sim := none }, by simp, hr⟩
     · exact ⟨nd, by simp [h, hn], hr⟩
+
+/-! ### revising an uncertainty as a fraction of the central value -/
+
+/-- **C05 (relative uncertainty).** `m.relative_error = r` is the assignment of the uncertainty
+    `|current central value| * r`: every statement about changes of uncertainties covers it. -/
+theorem C05_setRel_eq (w : World α) (i : Nat) (r : α) :
+    w.step (.setRel i r) = w.step (.setError i (Num.mul (Num.abs (w.env i)) r)) := rfl
+
+/-- **C05 (relative uncertainty, sign).** Over the reals the uncertainty that a relative
+    uncertainty `r ≥ 0` leaves behind is non-negative whatever the sign of the central value, and
+    it is the one every later fresh result is computed from. -/
+theorem C05_setRel_nonneg (w : World ℝ) (i : Nat) (r : ℝ) (hr : 0 ≤ r) (hi : i < w.errs.length) :
+    (w.step (.setRel i r)).1.sig i = |w.env i| * r ∧ 0 ≤ (w.step (.setRel i r)).1.sig i := by
+  have h : (w.step (.setRel i r)).1.sig i = |w.env i| * r := by
+    simp [step, sig, List.getD_eq_getElem?_getD, hi]
+  exact ⟨h, by rw [h]; exact mul_nonneg (abs_nonneg _) hr⟩
+
+/-- non-vacuity and the point of the sign: a reading of -5 with relative uncertainty 0.1 -/
+example : ((({ vals := [-5, 2], errs := [1, 1], corr := [], nodes := [] } : World ℝ).step
+    (.setRel 0 (1 / 10))).1.sig 0) = 1 / 2 := by
+  simp [step, sig, env]; norm_num [abs_of_neg]
 
 /-- non-vacuity: a concrete session (c = a*b, d = c*c unfolded) in which `d` is settled -/
 example : settled
